@@ -208,7 +208,8 @@ theorem addLoop_eq (g : Nat → Int) (idx : List Nat) (bins acc : List Int)
         simp [Gen.cmsAddClampCmp, Cmp.evalInt, c, ih _ _ ht, e]
       · have e : clamp32 (g x) = g x := by
           simp only [clamp32, Gen.int32Min, Gen.int32Max] at *; omega
-        have c2 : ¬ g x < Gen.int32Min := by omega
+        have c2 : ¬ g x < (-2147483648 : Int) := by
+          have := hx; simp only [Gen.int32Min] at this; omega
         simp [Gen.cmsAddClampCmp, Cmp.evalInt, c, c2, ih _ _ ht, e]
 
 theorem removeLoop_eq (g : Nat → Int) (idx : List Nat) (bins acc : List Int)
@@ -225,7 +226,8 @@ theorem removeLoop_eq (g : Nat → Int) (idx : List Nat) (bins acc : List Int)
       by_cases c : g x > Gen.int32Min
       · have e : clamp32 (g x) = g x := by
           simp only [clamp32, Gen.int32Min, Gen.int32Max] at *; omega
-        have c2 : ¬ g x > Gen.int32Max := by omega
+        have c2 : ¬ g x > (2147483647 : Int) := by
+          have := hx; simp only [Gen.int32Max] at this; omega
         simp [Gen.cmsRemoveKeepCmp, Cmp.evalInt, c, c2, ih _ _ ht, e]
       · have e : clamp32 (g x) = Gen.int32Min := by
           simp only [clamp32, Gen.int32Min, Gen.int32Max] at *; omega
